@@ -387,7 +387,162 @@ fn stage(i: &Input, c: &mut Case) -> Result<(), String> {
     Ok(())
 }
 
-pub const STAGES: &[Stage] = &[Stage { name: "decisions", f: stage }];
+/// One writer, one element X, several chains in a row: X is accepted under a chain that matches its path; then some of the open masters
+/// are closed (End tags are not judged) and others opened with the unknown-size option (not judged either), so that nothing the writer
+/// validates lies between the accepted X and the next offer of X under the new chain.  A verdict that is remembered rather than derived
+/// from the chain that is open now shows here and nowhere else.
+fn moves<T: crate::dynspec::Spec>(t: &mut Tape, spec: &SpecTable, tl: &mut Tally, log: &mut Vec<String>) -> Result<(), String> {
+    let masters = spec.masters();
+    if masters.is_empty() {
+        return Ok(());
+    }
+    let x = &spec.elems[t.below(spec.elems.len())];
+    // a chain that matches X's path: placeholders filled with min..min+2 masters
+    let mut a: Vec<u64> = Vec::new();
+    for (pi, p) in x.path.iter().enumerate() {
+        match p {
+            PathPart::Id(i) => a.push(*i),
+            PathPart::Global((min, max)) => {
+                let lo = min.unwrap_or(0) as usize;
+                let hi = max.map(|m| m as usize).unwrap_or(lo + 2).max(lo);
+                let k = lo + t.below((hi - lo).min(2) + 1);
+                let follower = x.path.get(pi + 1).and_then(|q| if let PathPart::Id(y) = q { Some(*y) } else { None });
+                for _ in 0..k {
+                    let m = masters[t.below(masters.len())];
+                    a.push(if Some(m) == follower { masters[0] } else { m });
+                }
+            }
+        }
+    }
+    if !ref_match(&x.path, &a) {
+        tl.skipped_ambiguous += 1;
+        return Ok(());
+    }
+    let mut w = Wr::<T>::new(RecDest::new());
+    let mut open: Vec<u64> = Vec::new();
+    for &id in &a {
+        let valid = spec.get(id).map(|e| ref_match(&e.path, &open)).unwrap_or(false);
+        let opt = if !valid || t.chance(1, 3) { WOpt::Unknown } else { WOpt::Default };
+        w.apply(&WOp::Write(Flat::Start(id), opt)).map_err(|er| format!("writer: opening link {:#x} under {:x?} failed: {:?}", id, open, er))?;
+        open.push(id);
+    }
+    let rounds = 1 + t.below(3);
+    for round in 0..=rounds {
+        if round > 0 {
+            // close some, open others without validation
+            let j = t.below(open.len() + 1);
+            let mut closed = Vec::new();
+            for _ in 0..j {
+                let id = open.pop().unwrap();
+                w.apply(&WOp::Write(Flat::End(id), WOpt::Default)).map_err(|er| format!("writer: End of {:#x} failed: {:?} (history {})", id, er, log.join(" ")))?;
+                closed.push(id);
+            }
+            closed.reverse();
+            // the chain to reopen: what was closed, with one link replaced / removed / doubled, or the innermost link kept below a new one
+            let mut re = closed.clone();
+            if !re.is_empty() {
+                let i = t.below(re.len());
+                match t.below(5) {
+                    0 => re[i] = masters[t.below(masters.len())],
+                    1 => {
+                        re.remove(i);
+                    }
+                    2 => {
+                        let y = re[i];
+                        re.insert(i, y);
+                    }
+                    3 => {
+                        // same innermost master, same depth, different ancestor
+                        if re.len() >= 2 {
+                            let k = t.below(re.len() - 1);
+                            re[k] = masters[t.below(masters.len())];
+                        }
+                    }
+                    _ => {}
+                }
+            } else if t.chance(1, 2) {
+                re.push(masters[t.below(masters.len())]);
+            }
+            for &id in re.iter().take(8usize.saturating_sub(open.len())) {
+                w.apply(&WOp::Write(Flat::Start(id), WOpt::Unknown)).map_err(|er| format!("writer: opening {:#x} with unknown size under {:x?} failed: {:?}", id, open, er))?;
+                open.push(id);
+            }
+            log.push(format!("close{:x?} open{:x?}", closed, re));
+        }
+        let want = ref_match(&x.path, &open);
+        let r = w.apply(&WOp::Write(offer_flat(x), WOpt::Default));
+        tl.units += 1;
+        tl.history += (round > 0) as u64;
+        tl.nontrivial += (round > 0 && !want) as u64;
+        log.push(format!("offer {:#x} under {:x?} -> {}", x.id, open, if r.is_ok() { "Ok" } else { "Err" }));
+        match (&r, want) {
+            (Ok(()), true) => {
+                tl.aa += 1;
+                if x.ty == Ty::Master {
+                    w.apply(&WOp::Write(Flat::End(x.id), WOpt::Default)).map_err(|er| format!("writer: End right after an accepted Start of {:#x} failed: {:?}", x.id, er))?;
+                }
+            }
+            (Err(WErr::UnexpectedTag { tag_id, .. }), false) if *tag_id == x.id => tl.rr += 1,
+            (Ok(()), false) => {
+                return Err(format!(
+                    "writer ACCEPTED {:#x} (declared path {}) under the open chain {:x?}, which the path does not match, after it had accepted it under another chain\n  history: {}",
+                    x.id,
+                    render_path(&x.path),
+                    open,
+                    log.join(" ; ")
+                ))
+            }
+            (Err(er), _) => {
+                return Err(format!(
+                    "writer: {:#x} (declared path {}) under the open chain {:x?}: expected {}, got {:?}\n  history: {}",
+                    x.id,
+                    render_path(&x.path),
+                    open,
+                    if want { "Ok" } else { "UnexpectedTag carrying its id" },
+                    er,
+                    log.join(" ; ")
+                ))
+            }
+        }
+    }
+    Ok(())
+}
+
+fn stage_moves(i: &Input, c: &mut Case) -> Result<(), String> {
+    let mut t = Tape::new(i.tape());
+    let rich = t.chance(1, 5);
+    let spec: Rc<SpecTable> = if rich {
+        crate::gen::rich()
+    } else {
+        let s = Rc::new(gen_spec(&mut t, SpecOpts { max_elems: 16, ..SpecOpts::default() }));
+        set_current(s.clone());
+        s
+    };
+    let mut tl = Tally { units: 0, nontrivial: 0, aa: 0, rr: 0, skipped_ambiguous: 0, reader: 0, reader_unknown: 0, history: 0 };
+    let mut logs = Vec::new();
+    for _ in 0..6 {
+        let mut log = Vec::new();
+        if rich {
+            moves::<crate::dynspec::RichSpec>(&mut t, &spec, &mut tl, &mut log)?;
+        } else {
+            moves::<DynTag>(&mut t, &spec, &mut tl, &mut log)?;
+        }
+        logs.push(log.join(" ; "));
+    }
+    c.units = tl.units.max(1);
+    c.nontrivial_units = tl.nontrivial;
+    c.checks = tl.units;
+    c.label_n("offers_after_a_move", tl.history);
+    c.label_n("offers_after_a_move_that_must_be_refused", tl.nontrivial);
+    c.label_n("verdict_accept_accept", tl.aa);
+    c.label_n("verdict_reject_reject", tl.rr);
+    c.label_if(rich, "macro_derived_spec");
+    c.key(&(spec.elems.clone(), &logs));
+    c.sample_with(|| format!("spec {} | {}", crate::props::common::spec_brief(&spec), logs.join(" || ")));
+    Ok(())
+}
+
+pub const STAGES: &[Stage] = &[Stage { name: "decisions", f: stage }, Stage { name: "same_element_after_moves", f: stage_moves }];
 
 pub fn run(rc: &mut RunCtx) {
     rc.run_pt(STAGES[0], rc.pick(48_000, 250_000), (128, 500));
@@ -395,6 +550,8 @@ pub fn run(rc: &mut RunCtx) {
     rc.require_label("decisions", "verdict_reject_reject", 200_000);
     rc.require_label("decisions", "reader_decisions", 50_000);
     rc.require_label("decisions", "reader_decisions_with_unknown_size_chain", 10_000);
+    rc.run_pt(STAGES[1], rc.pick(60_000, 400_000), (128, 500));
+    rc.require_label("same_element_after_moves", "offers_after_a_move_that_must_be_refused", 20_000);
     if !rc.quick() {
         rc.run_fuzz(Some(STAGES[0]), 300);
     }
